@@ -506,7 +506,7 @@ fn async_hostile(c: &mut Case) {
     let (mut w, _runner) = conn::build_world(&case, Rng::new(c.rng.next_u64()));
     let end = w.run(400_000, |_, _| {});
     c.l.evaluations += 1;
-    let out = w.pipe.lock().unwrap().outbox.clone();
+    let out = w.pipe.lock().unwrap_or_else(std::sync::PoisonError::into_inner).outbox.clone();
     let fail = |c: &mut Case, sig: &str, msg: String| {
         c.violation(format!("async:{sig}"), Json::obj().with("case", case.desc.clone()).with("problem", msg).with("input_hex", hex_cap(&bytes, 20000)).with("output_hex", hex_cap(&out, 2000)).with("last_actions", conn::trace_tail(&w, 40)));
     };
